@@ -91,9 +91,12 @@ def neighbourhood_families(P, G, tier, **kw):
           ('reason', 'resp', b'HTTP/1.1 200 ', b'A: b\nCc: d\n\n', flags(multi_sp_resp='sym')), ('reason-end', 'resp', b'HTTP/1.0 404 N', b'\nA: b\r\n\r\n', flags(multi_sp_resp='sym')),
           ('code', 'resp', b'HTTP/1.1 ', b' OK\r\nA: b\r\n\r\n', flags(multi_sp_resp='sym')),
           ('target', 'req', b'GET /', b' HTTP/1.1\nA: b\n\n', flags(multi_sp_req='sym')), ('version', 'req', b'PUT /a HTTP/1', b'A: b\r\n\r\n', flags(multi_sp_req='sym')),
-          ('method', 'req', b'', b' / HTTP/1.1\r\nA: b\r\n\r\n', flags(multi_sp_req='sym'))]
+          ('method', 'req', b'', b' / HTTP/1.1\r\nA: b\r\n\r\n', flags(multi_sp_req='sym')),
+          # the same windows on the THIRD header line (state carried over from earlier lines, header count > 1)
+          ('third-colon', 'resp', RESP_LINE + b'A: b\r\nCc: d\r\nNa', b'v\r\n\r\n', RESP_HDR_SYM), ('third-value-start', 'req', REQ_LINE + b'A: b\r\nCc: d\r\nN:', b'v\r\n\r\n', REQ_HDR_SYM),
+          ('third-value-end', 'resp', RESP_LINE + b'A: b\r\nCc: d\r\nN:v', b'\r\n\r\n', RESP_HDR_SYM), ('third-line-start', 'resp', RESP_LINE + b'A: b\r\nCc: d\r\n', b'N:v\r\n\r\n', RESP_HDR_SYM)]
     for nm, kind, pre, suf, fl in tm:
-        J += deepen(P, G, 'nb-' + nm, lambda n, kind=kind, pre=pre, suf=suf, fl=fl: sc(kind, n, prefix=pre, suffix=suf, api='cfg', fl=fl, cap=2),
+        J += deepen(P, G, 'nb-' + nm, lambda n, kind=kind, pre=pre, suf=suf, fl=fl, nm=nm: sc(kind, n, prefix=pre, suffix=suf, api='cfg', fl=fl, cap=(4 if nm.startswith('third') else 2)),
                     range(1, top + 1), bud, f'{kind} {pre!r} + ' + '{n} symbolic bytes + ' + f'{suf!r}, header options symbolic', 3, **kw)
     return J
 
@@ -123,13 +126,13 @@ def startline_families(P, G, tier, which=('req', 'resp'), scale=0, **kw):
 
 SLIDE_POOL = [
     ('req-post', 'req', b'POST /a/b?c=d HTTP/1.1\r\nHost: ex.org\r\nX-A:  v1 \r\nB:\r\n\r\n', 'req'),
-    ('resp-fold', 'resp', b'HTTP/1.0 404 Not Found\r\nA: b\r\nLong-Name: val\r\n\tcont\r\nZ: 9\r\n\r\n', 'resp'),
+    ('resp-fold', 'resp', b'HTTP/1.0 404 Not Found Here\r\nA: b\r\nLong-Name: val\r\n\tcont\r\n  more \r\nZ: 9\r\n\r\n', 'resp'),
     ('resp-ignore', 'resp', b'HTTP/1.1 200 OK\r\nbad line\r\nK : v\r\nOk: 1\r\n\r\n', 'resp'),
     ('req-lf', 'req', b'\r\n\nGET /x HTTP/1.0\nA:b\nC: d\n\n', 'req'),
 ]
 
 
-def sliding_families(P, G, tier, default_flags=False, step=1, pool=None, **kw):
+def sliding_families(P, G, tier, default_flags=False, step=1, pool=None, max_off=None, cap=3, **kw):
     """a short symbolic window slid over every offset of a few realistic multi-header messages (all options of the message
     kind symbolic unless default_flags): every byte value at every position of a long message, in its real context"""
     J = []
@@ -138,8 +141,8 @@ def sliding_families(P, G, tier, default_flags=False, step=1, pool=None, **kw):
         if pool and nm not in pool: continue
         fl = F0 if default_flags else ([f for f in flags(multi_sp_req='sym', sp_before_first='sym', ignore_req='sym')] if kind == 'req'
                                        else [f for f in flags(sp_after_name='sym', obs_fold='sym', multi_sp_resp='sym', sp_before_first='sym', ignore_resp='sym')])
-        for off in range(0, len(msg) - w + 1, step):
-            jb = product_job(P, f'slide-{nm}-o{off}', G, sc(kind, w, prefix=msg[:off], suffix=msg[off + w:], api='cfg', fl=fl, cap=3), bud,
+        for off in range(0, (min(max_off, len(msg) - w) if max_off is not None else len(msg) - w) + 1, step):
+            jb = product_job(P, f'slide-{nm}-o{off}', G, sc(kind, w, prefix=msg[:off], suffix=msg[off + w:], api='cfg', fl=fl, cap=cap), bud,
                              f'{kind} message {nm} ({len(msg)} bytes) with bytes {off}..{off + w - 1} symbolic' + ('' if default_flags else ', options symbolic'),
                              family=f'slide-{nm}', mandatory=False, validate_every=60, **kw)
             jb.small = True; J.append(jb)
